@@ -172,7 +172,13 @@ func (x *Exec) instr(fr *Frame, in ssa.Instruction, st *State, reach Term) *Stat
 			_, nst := x.call(fr, d.call, &d.call.Call, st.clone(), g, d.call.Pos())
 			st = x.mergeStates([]edge{{cond: d.guard, st: nst}, {cond: "true", st: st}})
 		}
-	case *ssa.MakeChan, *ssa.Send, *ssa.Select, *ssa.Go:
+	case *ssa.MakeChan:
+		fr.vals[t] = x.makeChan(fr, t, st)
+	case *ssa.Send:
+		x.chanSend(fr, t, st, reach)
+	case *ssa.Select:
+		fr.vals[t] = x.chanSelect(fr, t, st, reach)
+	case *ssa.Go:
 		x.fail("unsupported instruction %T", in)
 	default:
 		x.fail("unsupported instruction %T", in)
@@ -350,7 +356,13 @@ func (x *Exec) unop(fr *Frame, t *ssa.UnOp, st *State, reach Term) Val {
 		}
 		return Val{T: t.Type(), S: "(- " + pow2(bits) + " 1 " + v.S + ")"}
 	case token.ARROW:
-		x.fail("channel receive")
+		c := x.val(fr, t.X)
+		elemT := under(c.T).(*types.Chan).Elem()
+		v, ok := x.chanRecv(c, elemT, st, reach)
+		if t.CommaOk {
+			return Val{T: t.Type(), Tup: []Val{v, {T: tBool, S: ok}}}
+		}
+		return v
 	}
 	x.fail("unop %s", t.Op)
 	return Val{}
